@@ -654,6 +654,23 @@ theorem C12_netBeta_sexual_real :
   ⟨netBetaSexualR_eq, netBetaSexualR_zero, fun _ _ _ _ _ he hle h1 hx => netBetaSexualR_mono he hle h1 hx,
    fun _ _ _ _ he h0 h1 hx => netBetaSexualR_range he h0 h1 hx, netBetaSexualR_nat⟩
 
+/-- **Acts.** A sexual-network edge without acts in the step has ZERO per-step transmissibility (rational model and reals, any
+    beta, weight, dt); the per-step transmissibility grows with the number of acts in the step; and below one act per step it
+    is at most `w·β` — so no floor on `acts·dt` is admissible. -/
+theorem C12_netBeta_sexual_acts :
+    (∀ (e : Edge) (β : Rat) (d : Dir), e.acts = 0 → netBeta .sexual e β d = 0) ∧
+    (∀ w β dt : ℝ, netBetaSexualR w β 0 dt = 0) ∧ (∀ w β a : ℝ, netBetaSexualR w β a 0 = 0) ∧
+    (∀ w β x y dt dt' : ℝ, 0 ≤ w → 0 ≤ β → β ≤ 1 → 0 ≤ x * dt → x * dt ≤ y * dt' →
+      netBetaSexualR w β x dt ≤ netBetaSexualR w β y dt') ∧
+    (∀ w β a dt : ℝ, 0 ≤ w → 0 ≤ β → β ≤ 1 → 0 ≤ a * dt → a * dt ≤ 1 → netBetaSexualR w β a dt ≤ w * β) :=
+  ⟨fun e β d h => by simp [netBeta, gen_netBetaSexual, h], netBetaSexualR_zero_acts, netBetaSexualR_zero_dt,
+   fun _ _ _ _ _ _ he h0 h1 hx hxy => netBetaSexualR_mono_acts he h0 h1 hx hxy,
+   fun _ _ _ _ he h0 h1 hx hx1 => netBetaSexualR_le_linear he h0 h1 hx hx1⟩
+
+/-- non-vacuity: an edge of weight 1/2 with no acts never reaches a positive probability; with 2 acts at β = 1/2 it has 3/8 -/
+example : netBeta .sexual { p1 := 0, p2 := 1, beta := 1/2, acts := 0 } (9/10) .fwd = 0 ∧
+    netBeta .sexual { p1 := 0, p2 := 1, beta := 1/2, acts := 2 } (1/2) .fwd = 3/8 := by decide +kernel
+
 /-! ### Non-vacuity: concrete states meeting the hypotheses, with non-trivial outcomes -/
 
 /-- six agents: 0,1 infectious; 2,3,4 susceptible (4 with zero relative susceptibility); 5 recovered -/
